@@ -35,7 +35,7 @@ META = {
     ],
     'assumptions': ['A1', 'A2', 'A5', 'A7', 'L_f is a valid Lipschitz constant of grad f (assumed for the parts)'],
     'not_decided': ['finite-difference agreement of gradients of non-pointwise built-ins (GroupL1Norm, NuclearNorm, QuadraticForm with operator)',
-                    'SeparableSum (product-space) gradients - both only in the bounded functional-pool stand-in'],
+                    'only in the bounded functional-pool stand-in (SeparableSum and Huber on power spaces are under contract)'],
 }
 
 
@@ -353,6 +353,8 @@ def units(tier, seed):
     us += [unit_overload(d) for d in ('__mul__', '__rmul__', '__add__', '__sub__')]
     from contracts import grouplib
     us.append(grouplib.unit_huber_gradient())
+    from contracts import grouplib as _gl
+    us.append(_gl.unit_separable_sum(2 if 'C09' != 'C08' else 3))
     us.append(unit_functional_pool_bounded())
     us.append(unit_canary())
     return us
